@@ -280,28 +280,8 @@ func runConc(c ConcCase) (st concStats, v *Violation) {
 		sch.release()
 		if !allDone {
 			// Let blocked tasks finish freely.
-			deadline := time.Now().Add(10 * time.Second)
-			for {
-				pending := false
-				sch.mu.Lock()
-				for _, t := range sch.tasks {
-					if !t.adopted && t.state != tsDone {
-						pending = true
-					}
-				}
-				sch.mu.Unlock()
-				if !pending {
-					break
-				}
-				select {
-				case e := <-sch.events:
-					sch.absorb(e)
-				case <-time.After(20 * time.Millisecond):
-				}
-				if time.Now().After(deadline) {
-					st.hang = true
-					break
-				}
+			if !sch.join(20 * time.Second) {
+				st.hang = true
 			}
 		}
 		sch.uninstall()
